@@ -77,6 +77,10 @@ type Engine struct {
 
 	spec    int
 	NoMerge bool
+	models  []*cachedModel
+	NoModelCache bool
+	ModelHits int
+	Completed int
 
 	// exploration
 	log     []logEntry
@@ -198,6 +202,7 @@ func (e *Engine) popTo(level int) {
 		n--
 	}
 	e.pc = e.pc[:n]
+	e.truncateModels()
 }
 
 func (e *Engine) pcTerms() []*Term {
@@ -216,7 +221,16 @@ func (e *Engine) feasible(c *Term) bool {
 	if c.IsFalse() {
 		return false
 	}
-	r := e.solver.CheckWith(c, e.FeasTO)
+	if !e.NoModelCache && e.modelSays(c) {
+		return true
+	}
+	e.solver.Push()
+	e.solver.Assert(c)
+	r := e.solver.Check(e.FeasTO)
+	if r == "sat" {
+		e.captureModel()
+	}
+	e.solver.Pop(1)
 	if r == "error" {
 		panic(engineError{"solver error on feasibility query: " + strings.Join(e.solver.Errors, "; ")})
 	}
@@ -752,6 +766,7 @@ func (e *Engine) runPath(fn *ssa.Function) {
 		}
 	}()
 	e.callSSA(nil, 0, fn, nil, nil)
+	e.Completed++
 	if len(e.WitnessInputs) == 0 && len(e.inputs) > 0 && !e.Concrete && len(e.inputs) >= e.curMaxInput {
 		// one concrete witness of a completed path, for the evidence samples
 		if e.solver.Check(e.FeasTO) == "sat" {
